@@ -201,7 +201,7 @@ class Program:
                "modify_scalar", "modify_vector", "modify_callable", "modify_grouped", "select", "unselect", "rename",
                "setitem", "setattr", "setitem_scalar", "setitem_wrong_length", "delitem", "delattr", "pop", "popitem", "colnames",
                "copy", "deepcopy", "clear", "aggregate", "count", "lod_roundtrip", "json_roundtrip", "pandas_roundtrip",
-               "arrow_roundtrip", "new_kwargs", "new_from_columns", "group_by", "split", "compare_eq", "to_string"]
+               "arrow_roundtrip", "new_kwargs", "new_from_columns", "group_by", "split", "compare_eq", "to_string", "file_roundtrip"]
         op = rng.choice(ops)
         nrow = canon.frame_nrow(df)
         names = list(dict.keys(df))
@@ -426,6 +426,19 @@ class Program:
                 if not names: return
                 if any(canon.dtype_kind(v) in ("object", "bytes", "timedelta", "other") for v in dict.values(df)): return
                 call = lambda: di.DataFrame.from_arrow(df.to_arrow())
+            elif op == "file_roundtrip":
+                # readers: the frame comes back from a file written by the matching writer
+                if not names or nrow == 0: return
+                import os
+                fmt = rng.choice(["pickle", "npz", "parquet", "csv", "json"])
+                kinds_here = {canon.dtype_kind(v) for v in dict.values(df)}
+                if fmt in ("parquet", "csv", "json") and kinds_here & {"object", "bytes", "timedelta", "other", "ustr"}: return
+                if fmt in ("csv", "json") and len(names) < 2: return
+                path = os.path.join(os.environ.get("VERIF_SCRATCH") or "/tmp", f"prog_{os.getpid()}.{fmt}" + rng.choice(["", ".gz"]) if fmt in ("pickle", "csv", "json") else f"prog_{os.getpid()}.{fmt}")
+                def call():
+                    getattr(df, "write_" + fmt)(path)
+                    return getattr(di.DataFrame, "read_" + fmt)(path)
+                desc = f"file_roundtrip:{fmt}"
             elif op == "new_kwargs":
                 spec = self.new_spec()
                 n = len(spec[0][2]) if spec else 0
